@@ -307,11 +307,13 @@ Theorem C19_scan_final_item :
 Proof. exact scan_final_item. Qed.
 Print Assumptions C19_scan_final_item.
 
-(* the error sites of parse.go, enumerated from today's source by tablegen, are the reviewed ones *)
+(* the error sites of package parse, enumerated from today's source by tablegen (helpers inlined into the reviewed
+   functions, which are cover_map's keys), are the reviewed ones *)
 Theorem C19_error_sites_enumerated :
   uncovered_sites = [] /\ stale_sites = [] /\
-  forallb (fun s : site => let '(f, _, _, _, _) := s in existsb (fun p => bstr_eqb f (fst p)) cover_map) parser_error_sites = true.
-Proof. exact (conj no_uncovered_site (conj no_stale_site sites_have_model_procedures)). Qed.
+  forallb (fun s : site => let '(f, _, _, _, _) := s in existsb (fun p => bstr_eqb f (fst p)) cover_map) parser_error_sites = true /\
+  parser_error_site_roots = map fst cover_map.
+Proof. exact (conj no_uncovered_site (conj no_stale_site (conj sites_have_model_procedures roots_are_cover_map))). Qed.
 Print Assumptions C19_error_sites_enumerated.
 
 (* file name and message text *)
